@@ -3,9 +3,99 @@
    segments and polylines it returns every crossing; the curves are not modified.
    Statements only; proofs in Proofs/AdvancedProofs.v (exact model of the piecewise-linear class). *)
 From Coq Require Import QArith List Bool Arith.
-From NurbsV Require Import Base.Res Base.QList Model.KV Model.Advanced.
+From NurbsV Require Import Base.Res Base.QList Spec.KnotSpec Model.KV Model.Advanced.
+From NurbsV Require Import Proofs.MatProofs Proofs.AdvancedProofs.
 Import ListNotations.
 Open Scope Q_scope.
+
+Theorem C20_sound :
+  forall (a b : Q) (p q : list Q) (c d : Q) (v w : list Q) (t u : Q),
+       a < b ->
+       c < d ->
+       length p = 2%nat ->
+       length q = 2%nat ->
+       length v = 2%nat ->
+       length w = 2%nat ->
+       seg_intersect (a, b, p, q) (c, d, v, w) = Some (t, u) ->
+       a <= t <= b /\ c <= u <= d /\ veq (seg_point (a, b, p, q) t) (seg_point (c, d, v, w) u).
+Proof. exact seg_intersect_sound. Qed.
+Print Assumptions C20_sound.
+
+Theorem C20_complete_transversal :
+  forall (a b : Q) (p q : list Q) (c d : Q) (v w : list Q) (t u : Q),
+       a < b ->
+       c < d ->
+       length p = 2%nat ->
+       length q = 2%nat ->
+       length v = 2%nat ->
+       length w = 2%nat ->
+       ~
+       (nth 0 q 0 - nth 0 p 0) * (nth 1 w 0 - nth 1 v 0) - (nth 1 q 0 - nth 1 p 0) * (nth 0 w 0 - nth 0 v 0) ==
+       0 ->
+       a <= t <= b ->
+       c <= u <= d ->
+       veq (seg_point (a, b, p, q) t) (seg_point (c, d, v, w) u) ->
+       exists t' u' : Q, seg_intersect (a, b, p, q) (c, d, v, w) = Some (t', u') /\ t' == t /\ u' == u.
+Proof. exact seg_intersect_complete. Qed.
+Print Assumptions C20_complete_transversal.
+
+Theorem C20_polylines_sound :
+  forall (ka : list Q) (Pa : list pt) (kb : list Q) (Pb : list pt) (t u : Q),
+       sincr ka ->
+       sincr kb ->
+       planar Pa ->
+       planar Pb ->
+       In (t, u) (intersect_polylines ka Pa kb Pb) ->
+       first_q ka <= t <= last_q ka /\
+       first_q kb <= u <= last_q kb /\
+       (exists (a b : Q) (p q : pt) (c d : Q) (v w : pt),
+          In (a, b, p, q) (segments ka Pa) /\
+          In (c, d, v, w) (segments kb Pb) /\
+          seg_intersect (a, b, p, q) (c, d, v, w) = Some (t, u) /\
+          a <= t <= b /\ c <= u <= d /\ veq (seg_point (a, b, p, q) t) (seg_point (c, d, v, w) u)).
+Proof. exact intersect_polylines_sound. Qed.
+Print Assumptions C20_polylines_sound.
+
+Theorem C20_polylines_no_duplicates :
+  forall (ka : list Q) (Pa : list pt) (kb : list Q) (Pb : list pt),
+       ForallOrdPairs pair_distinct (intersect_polylines ka Pa kb Pb).
+Proof. exact intersect_polylines_nodup. Qed.
+Print Assumptions C20_polylines_no_duplicates.
+
+Theorem C20_polylines_disjoint_empty :
+  forall (ka : list Q) (Pa : list pt) (kb : list Q) (Pb : list pt),
+       sincr ka ->
+       sincr kb ->
+       planar Pa ->
+       planar Pb ->
+       (forall (a b : Q) (p q : pt) (c d : Q) (v w : pt),
+        In (a, b, p, q) (segments ka Pa) ->
+        In (c, d, v, w) (segments kb Pb) ->
+        forall t u : Q,
+        a <= t <= b -> c <= u <= d -> ~ veq (seg_point (a, b, p, q) t) (seg_point (c, d, v, w) u)) ->
+       intersect_polylines ka Pa kb Pb = [].
+Proof. exact intersect_polylines_empty. Qed.
+Print Assumptions C20_polylines_disjoint_empty.
+
+Theorem C20_polylines_complete :
+  forall (ka : list Q) (Pa : list pt) (kb : list Q) (Pb : list pt) (a b : Q) 
+         (p q : pt) (c d : Q) (v w : pt) (t u : Q),
+       sincr ka ->
+       sincr kb ->
+       planar Pa ->
+       planar Pb ->
+       In (a, b, p, q) (segments ka Pa) ->
+       In (c, d, v, w) (segments kb Pb) ->
+       ~
+       (nth 0 q 0 - nth 0 p 0) * (nth 1 w 0 - nth 1 v 0) - (nth 1 q 0 - nth 1 p 0) * (nth 0 w 0 - nth 0 v 0) ==
+       0 ->
+       a <= t <= b ->
+       c <= u <= d ->
+       veq (seg_point (a, b, p, q) t) (seg_point (c, d, v, w) u) ->
+       exists y : Q * Q, In y (intersect_polylines ka Pa kb Pb) /\ fst y == t /\ snd y == u.
+Proof. exact intersect_polylines_complete. Qed.
+Print Assumptions C20_polylines_complete.
+
 
 Example C20_nonvacuous_cross :
   intersect_polylines [0; 1] [[0; 0]; [2; 2]] [0; 2] [[0; 2]; [2; 0]] = [(1#2, 1)].
